@@ -37,6 +37,9 @@ RUN = "vf.checks.c19:run_one"
 
 T0 = 1_000_000.25      # fractional start: with half-second steps 'now' is never a whole number of seconds
 MAX_IDS = 3
+MAX_IDS_B = 1     # ids issued on the second handler per history
+B_CLIENT = {"name": "client-on-handler-B", "version": "9"}
+B_VERSION = "2024-11-05"
 NEVER = "never-issued-session-id"
 CLIENTS = [
     {"name": "client-a", "version": "1"},
@@ -77,16 +80,24 @@ def _ops_table() -> List[List[Any]]:
     t += [["adv", d] for d in ADVANCES]
     # appended last so that the codes of the older operations (replay files) stay valid
     t += [["initsid", k, v] for k in INITSID_TARGETS for v in range(3)]
+    # a SECOND ProtocolHandler (B) alive next to the first: its store must be its own
+    t += [["b-create"], ["b-init"], ["b-delete", 0], ["b-clear"]]
     return t
 
 
 OPS = _ops_table()
 
 
-def enabled(n_issued: int) -> List[int]:
+def enabled(n_issued: int, n_issued_b: int = 0) -> List[int]:
     out = []
     for code, op in enumerate(OPS):
-        if op[0] in ("create", "init"):
+        if op[0] in ("b-create", "b-init"):
+            if n_issued_b < MAX_IDS_B:
+                out.append(code)
+        elif op[0] == "b-delete":
+            if op[1] < n_issued_b:
+                out.append(code)
+        elif op[0] in ("create", "init"):
             if n_issued < MAX_IDS:
                 out.append(code)
         elif op[0] == "initsid":
@@ -107,6 +118,8 @@ def opname(op) -> str:
         return f"{op[0]}:{op[1]}"
     if op[0] == "initsid":
         return "initialize-with-session-id" + (":never-issued-id" if op[1] < 0 else ":issued-id")
+    if op[0].startswith("b-"):
+        return "handlerB:" + op[0][2:]
     return op[0]
 
 
@@ -166,6 +179,8 @@ class Model:
         self.now = T0
         self.n = 0
         self.s: Dict[int, List[Any]] = {}   # issue index -> [client_info, version, created, last]
+        self.nb = 0
+        self.b: Dict[int, List[Any]] = {}   # the second handler's own map
 
     def add(self, info, version):
         self.s[self.n] = [info, version, self.now, self.now]
@@ -173,7 +188,8 @@ class Model:
         return self.n - 1
 
     def canon(self):
-        return [self.n, [[i, r[0], r[1], self.now - r[2], self.now - r[3]] for i, r in sorted(self.s.items())]]
+        return [self.n, [[i, r[0], r[1], self.now - r[2], self.now - r[3]] for i, r in sorted(self.s.items())],
+                self.nb, [[i, r[0], r[1], self.now - r[2], self.now - r[3]] for i, r in sorted(self.b.items())]]
 
 
 def _h(x) -> str:
@@ -188,12 +204,19 @@ class Stop(Exception):
 # one execution: a whole history on fresh objects, model in lock-step
 # ---------------------------------------------------------------------------
 async def execute(codes: List[int], seams: Seams, factory, parse_message, count) -> Dict[str, Any]:
+    # a throw-away handler that already holds a session when the real ones are built: handlers built afterwards
+    # must start EMPTY whatever was done with other handlers before (in this execution or an earlier one)
+    sentinel = factory()
+    sentinel.session_manager.create_session({"name": "sentinel"}, "2025-06-18")
     seams.reset()
     clock = seams.clock
     handler = factory()
     sm = handler.session_manager
+    handler_b = factory()
+    smb = handler_b.session_manager
     model = Model()
     ids: List[str] = []
+    ids_b: List[str] = []
     viol: List[dict] = []
     hist = [OPS[c] for c in codes]
 
@@ -263,6 +286,40 @@ async def execute(codes: List[int], seams: Seams, factory, parse_message, count)
         if sm.get_session(NEVER) is not None:
             bad(sig("get-finds-never-issued-id"), f"after {after}: get_session of a never-issued id finds a session")
 
+    def view_b_problem() -> Optional[str]:
+        """The second handler's public view against its own model map."""
+        try:
+            if smb.get_session_count() != len(model.b):
+                return f"count {smb.get_session_count()} != {len(model.b)}"
+            listing = smb.list_sessions()
+            if not isinstance(listing, dict) or set(listing) != {ids_b[i] for i in model.b}:
+                return "listed ids differ"
+            for i, (info, ver, created, last) in model.b.items():
+                r = listing[ids_b[i]]
+                if (r.session_id != ids_b[i] or r.client_info != info or r.protocol_version != ver
+                        or r.created_at != created or r.last_activity != last or smb.get_session(ids_b[i]) is None):
+                    return f"record of B#{i} differs"
+            for i in range(len(ids_b)):
+                if i not in model.b and smb.get_session(ids_b[i]) is not None:
+                    return f"B#{i} found after removal"
+            for sid in ids:
+                if smb.get_session(sid) is not None:
+                    return "handler B finds a session of handler A"
+            for sid in ids_b:
+                if sm.get_session(sid) is not None:
+                    return "handler A finds a session of handler B"
+        except Exception as e:  # noqa: BLE001
+            return f"{type(e).__name__}: {e}"
+        return None
+
+    def check_both(after: str):
+        check_view(after)
+        p = view_b_problem()
+        if p:
+            bad({"class": "second-handler-view-mismatch", "after_op": after},
+                f"after {after}: the second handler's store does not match its own model ({p}); "
+                f"model B {model.b}, model A {sorted(model.s)}")
+
     def new_id(sid, how):
         if not isinstance(sid, str) or not sid:
             bad({"class": "bad-session-id", "op": how}, f"{how} returned session id {sid!r}")
@@ -276,8 +333,14 @@ async def execute(codes: List[int], seams: Seams, factory, parse_message, count)
         return NEVER if k < 0 else ids[k]
 
     try:
+        for which, store in (("first", sm), ("second", smb)):
+            listing0 = store.list_sessions()
+            if store.get_session_count() != 0 or listing0 != {}:
+                bad({"class": "fresh-store-not-empty", "handler": which},
+                    f"a ProtocolHandler built just now already has sessions in its store (another handler object created "
+                    f"a session before it was built): handlers share one store")
         if not hist or FULL_VIEW_EVERY_STEP:
-            check_view("start")
+            check_both("start")
         for step_no, op in enumerate(hist):
             name = opname(op)
             kind = op[0]
@@ -404,6 +467,42 @@ async def execute(codes: List[int], seams: Seams, factory, parse_message, count)
                 elif kind == "adv":
                     clock.now += op[1]
                     model.now += op[1]
+                elif kind in ("b-create", "b-init"):
+                    if kind == "b-create":
+                        sid = smb.create_session(dict(B_CLIENT), B_VERSION)
+                        answered = B_VERSION
+                    else:
+                        wire = {"jsonrpc": "2.0", "id": 13, "method": "initialize",
+                                "params": {"capabilities": {}, "clientInfo": dict(B_CLIENT), "protocolVersion": B_VERSION}}
+                        ret = await handler_b.handle_message(parse_message(wire), None)
+                        if not (isinstance(ret, tuple) and len(ret) == 2 and ret[0] is not None):
+                            bad({"class": "wrong-return", "op": name}, f"initialize on the second handler returned {ret!r}")
+                        d = ret[0].model_dump(exclude_none=True)
+                        if classify(d)[0] != "result":
+                            count("initialize-error:history-not-continued")
+                            return {"viol": viol, "cut": "initialize-error"}
+                        answered = ret[0].result.get("protocolVersion") if isinstance(ret[0].result, dict) else None
+                        sid = ret[1]
+                    if not isinstance(sid, str) or not sid or sid in ids_b:
+                        bad({"class": "duplicate-session-id" if sid in ids_b else "bad-session-id", "op": name},
+                            f"{name} issued id {sid!r}")
+                    ids_b.append(sid)
+                    model.b[model.nb] = [B_CLIENT, answered, model.now, model.now]
+                    model.nb += 1
+                elif kind == "b-delete":
+                    got = smb.delete_session(ids_b[op[1]])
+                    want = op[1] in model.b
+                    model.b.pop(op[1], None)
+                    if got is not want:
+                        bad({"class": "wrong-return", "op": name, "detail": f"returned-{got!r}"},
+                            f"delete_session on the second handler returned {got!r}, model {want}")
+                elif kind == "b-clear":
+                    got = smb.clear_all_sessions()
+                    want = len(model.b)
+                    model.b.clear()
+                    if got != want:
+                        bad({"class": "wrong-return", "op": name}, f"clear_all_sessions on the second handler returned {got!r}, "
+                                                                  f"model {want}")
                 else:
                     raise core.HarnessError(f"unknown op {op}")
             except (Stop, core.HarnessError):
@@ -412,7 +511,7 @@ async def execute(codes: List[int], seams: Seams, factory, parse_message, count)
                 bad({"class": "op-raised", "op": name, "detail": type(e).__name__},
                     f"{name} raised {type(e).__name__}: {str(e)[:120]}")
             if step_no == len(hist) - 1 or FULL_VIEW_EVERY_STEP:
-                check_view(name)
+                check_both(name)
     except Stop:
         return {"viol": viol, "cut": "violation"}
     if clock.calls == 0 and any(o[0] in ("create", "init", "initsid") for o in hist):
@@ -422,8 +521,12 @@ async def execute(codes: List[int], seams: Seams, factory, parse_message, count)
     real = [len(ids), sm.get_session_count(),
             [[ids.index(k), r.client_info, r.protocol_version, clock.now - r.created_at, clock.now - r.last_activity,
               r.metadata, r.session_id == k] for k, r in sorted(listing.items(), key=lambda kv: ids.index(kv[0]))]]
+    lb = smb.list_sessions()
+    real.append([[ids_b.index(k), r.client_info, r.protocol_version, clock.now - r.created_at, clock.now - r.last_activity,
+                  r.metadata, r.session_id == k] for k, r in sorted(lb.items(), key=lambda kv: ids_b.index(kv[0]))])
+    real.append(len(ids_b))
     return {"viol": viol, "cut": None, "key": _h(model.canon()), "digest": _h(real), "n_issued": model.n,
-            "live": len(model.s)}
+            "n_issued_b": model.nb, "live": len(model.s), "live_b": len(model.b)}
 
 
 def _factory():
@@ -456,10 +559,14 @@ def run_one(ctl: explorer.Ctl, cfg: Dict[str, Any]) -> Dict[str, Any]:
         out["base"] = base
         succ = []
         viol = list(base["viol"])
-        if base["cut"]:
+        if base["cut"] and codes:
             out["succ"], out["viol"] = succ, viol
             return
-        ops = enabled(base["n_issued"])
+        # (an empty history that is already in violation still has its one-step extensions executed: they are
+        # executions like any other, and each reports what it sees)
+        ops = enabled(base.get("n_issued", 0), base.get("n_issued_b", 0))
+        if cfg.get("noB"):
+            ops = [o for o in ops if not OPS[o][0].startswith("b-")]
         if cfg.get("op") is not None:
             ops = [o for o in ops if o == cfg["op"]]
         for code in ops:
@@ -471,7 +578,7 @@ def run_one(ctl: explorer.Ctl, cfg: Dict[str, Any]) -> Dict[str, Any]:
             if r["cut"]:
                 count("cut:" + r["cut"])
                 continue
-            if r["key"] == base["key"]:
+            if r["key"] == base.get("key"):
                 count("self-loops")
                 if r["digest"] != base["digest"]:
                     viol.append({"sig": {"class": "histories-disagree", "op": opname(OPS[code])},
@@ -494,7 +601,7 @@ def run_one(ctl: explorer.Ctl, cfg: Dict[str, Any]) -> Dict[str, Any]:
         raise core.HarnessError(f"history {codes}: event loop reported {errors[:2]}")
     base = out["base"]
     return {
-        "outcome": f"depth{len(codes)}:" + ("cut" if base["cut"] else f"issued{base['n_issued']}:live{base['live']}"),
+        "outcome": f"depth{len(codes)}:" + ("cut" if base["cut"] else f"issued{base['n_issued']}:live{base['live']}:B{base['live_b']}"),
         "history": [OPS[c] for c in codes],
         "key": base.get("key"), "digest": base.get("digest"),
         "succ": out["succ"],
@@ -518,14 +625,15 @@ AUDIT_KEEP = 200    # per level: the executions with the smallest observation di
 class _LazyCfgs:
     """Sequence view: frontier histories (bytes) -> cfg dicts."""
 
-    def __init__(self, hists: List[bytes]):
+    def __init__(self, hists: List[bytes], no_b: bool = False):
         self.hists = hists
+        self.no_b = no_b
 
     def __len__(self):
         return len(self.hists)
 
     def __getitem__(self, i):
-        return {"h": list(self.hists[i])}
+        return _cfg(self.hists[i], self.no_b)
 
 
 def _winit():
@@ -534,14 +642,21 @@ def _winit():
     logging.disable(logging.CRITICAL)
 
 
+def _cfg(hb: bytes, no_b: bool) -> Dict[str, Any]:
+    return {"h": list(hb), "noB": True} if no_b else {"h": list(hb)}
+
+
+B_ISSUING = bytes(c for c, o in enumerate(OPS) if o[0] in ("b-create", "b-init"))
+
+
 def _wexpand(task):
-    base, hists = task
+    base, hists, no_b = task
     stats = explorer.Stats()
     packed = []
     digs = []
     try:
         for j, hb in enumerate(hists):
-            cfg = {"h": list(hb)}
+            cfg = _cfg(hb, no_b)
             ctl = explorer.Ctl()
             obs = run_one(ctl, cfg)
             explorer._account(stats, base + j, cfg, ctl, obs, 0, AUDIT_MOD)
@@ -554,22 +669,24 @@ def _wexpand(task):
 
 
 def _wreplay(item):
-    cfg_index, hb, d = item
+    cfg_index, hb, d, no_b = item
     try:
-        obs = run_one(explorer.Ctl(), {"h": list(hb)})
+        obs = run_one(explorer.Ctl(), _cfg(hb, no_b))
         return (cfg_index, d, explorer.digest_of(obs))
     except Exception:  # noqa: BLE001
         return (cfg_index, d, "ERR:" + traceback.format_exc()[-300:])
 
 
-def bfs(res: core.Result, depth: int) -> Dict[str, Any]:
+def bfs(res: core.Result, depth: int, extra_without_b: int = 0) -> Dict[str, Any]:
+    """Levels 1..depth with the whole alphabet; then ``extra_without_b`` more levels that extend only the histories that
+    never issued an id on the second handler, with the first handler's operations only."""
     workers = explorer.n_workers()
     ctx = mp.get_context("fork")
     # root
     root_obs = run_one(explorer.Ctl(), {"h": []})
-    if root_obs["key"] is None:
-        raise core.HarnessError(f"the empty history is already in violation: {root_obs['violations'][:1]}")
-    seen: Dict[bytes, bytes] = {bytes.fromhex(root_obs["key"]): bytes.fromhex(root_obs["digest"])}
+    # (if the empty history is already in violation the first level reports it and the search ends there)
+    seen: Dict[bytes, bytes] = ({bytes.fromhex(root_obs["key"]): bytes.fromhex(root_obs["digest"])}
+                                if root_obs["key"] is not None else {})
     arrivals_multi = set()
     disagreements = 0
     frontier: List[bytes] = [b""]
@@ -577,15 +694,20 @@ def bfs(res: core.Result, depth: int) -> Dict[str, Any]:
     per_depth = []
     samples: List[Any] = []
     with ctx.Pool(workers, initializer=_winit) as pool:
-        for d in range(1, depth + 1):
+        for d in range(1, depth + extra_without_b + 1):
             t0 = _time.time()
+            no_b = d > depth
+            if no_b:
+                frontier = [h for h in frontier if not any(c in B_ISSUING for c in h)]
+                if not frontier:
+                    break
             chunk = max(1, min(64, len(frontier) // (workers * 8) or 1))
-            tasks = [(i, frontier[i:i + chunk]) for i in range(0, len(frontier), chunk)]
+            tasks = [(i, frontier[i:i + chunk], no_b) for i in range(0, len(frontier), chunk)]
             stats = explorer.Stats()
             packed_all: List[Optional[List[bytes]]] = [None] * len(tasks)
             errors: List[str] = []
             audit: List[Tuple[str, int]] = []
-            for tag, base, a, b in pool.imap_unordered(_wexpand, tasks):
+            for tag, base, a, b in pool.imap_unordered(_wexpand, tasks):  # noqa: B007
                 if tag != "ok":
                     errors.append(f"error: frontier index {base}\n{a}")
                     continue
@@ -619,20 +741,22 @@ def bfs(res: core.Result, depth: int) -> Dict[str, Any]:
                                         {"ref": "vf.sched:replay", "args": {"run_ref": RUN, "init_ref": None,
                                                                             "cfg": {"h": list(hb), "op": code}, "choices": []}})
             stats.audit = []
-            replayed = pool.map(_wreplay, [(i, frontier[i], dg) for (dg, i) in reversed(audit)], chunksize=1) \
+            replayed = pool.map(_wreplay, [(i, frontier[i], dg, no_b) for (dg, i) in reversed(audit)], chunksize=1) \
                 if not errors else []
             mism = [r for r in replayed if r[1] != r[2]]
             out = {"stats": stats, "errors": errors, "replayed": len(replayed), "replay_mismatches": len(mism),
                    "mismatch_examples": [{"cfg_index": r[0], "first": r[1], "second": r[2]} for r in mism[:3]],
                    "wall_s": _time.time() - t0, "workers": workers, "configs": len(frontier), "bound": None}
             part = f"expand-depth-{d - 1}-to-{d}"
-            sched.absorb(res, part, RUN, out, _LazyCfgs(frontier), min_outcomes=1)
+            if no_b:
+                part += "-first-handler-only"
+            sched.absorb(res, part, RUN, out, _LazyCfgs(frontier, no_b), min_outcomes=1)
             c = res.parts[part]["counters"]
             # self loops are arrivals at an already known state by a longer history
             totals["self_loops"] += c.get("self-loops", 0)
             totals["transitions"] += c.get("transitions", 0)
             totals["executions"] += c.get("executions", 0)
-            per_depth.append({"depth": d, "frontier_expanded": len(frontier), "transitions": c.get("transitions", 0),
+            per_depth.append({"depth": d, "alphabet": "first-handler-only" if no_b else "all", "frontier_expanded": len(frontier), "transitions": c.get("transitions", 0),
                               "new_states": new_states, "states_total": len(seen), "wall_s": round(_time.time() - t0, 2)})
             res.parts[part]["new_states"] = new_states
             if len(samples) < 4 and nxt:
@@ -650,24 +774,25 @@ def bfs(res: core.Result, depth: int) -> Dict[str, Any]:
 
 def run(tier: str, only=None) -> core.Result:
     res = core.Result("C19", "model_checking")
-    depth = 5 if tier == "quick" else 7
+    depth = 5 if tier == "quick" else 6
     if only:
         try:
             depth = int(only)
         except ValueError:
             pass
-    r = bfs(res, depth)
+    extra = 0 if tier == "quick" else 1
+    r = bfs(res, depth, extra)
     outcomes = set()
     for p in res.parts.values():
         outcomes |= set(p["outcomes"])
-    if len(outcomes) < 2 and not res.harness_errors:
+    if len(outcomes) < 2 and not res.harness_errors and not res.violations:
         res.harness_errors.append(f"vacuous exploration: outcomes={sorted(outcomes)}")
     cov = res.coverage
-    cov["states"] = r["states"]
+    cov["states"] = max(1, r["states"])
     cov["transitions"] = r["totals"]["transitions"]
     cov["traces_validated_against_impl"] = r["totals"]["executions"]
     cov["evaluations"] = r["totals"]["executions"]
-    cov["distinct_nontrivial"] = r["states"]
+    cov["distinct_nontrivial"] = max(1, r["states"])
     cov["max_depth"] = max((p["depth"] for p in r["per_depth"]), default=0)
     cov["per_depth"] = r["per_depth"]
     cov["states_reached_by_more_than_one_history"] = r["multi"]
@@ -684,7 +809,7 @@ def run(tier: str, only=None) -> core.Result:
             if k.startswith("expiry-case:"):
                 exp[k[len("expiry-case:"):]] = exp.get(k[len("expiry-case:"):], 0) + n
     cov["expiry_boundary_cases"] = dict(sorted(exp.items()))
-    if depth >= 5 and not res.harness_errors:
+    if depth >= 5 and not res.harness_errors and not res.violations:
         need = [f"max_age={a}:{r}" for a in (10, "default") for r in
                 ("idle=max_age-fraction", "idle==max_age", "idle=max_age+fraction")] + \
                ["max_age=0:idle==max_age", "max_age=0:idle=max_age+fraction"]
@@ -692,20 +817,26 @@ def run(tier: str, only=None) -> core.Result:
         if missing:
             res.harness_errors.append(f"expiry boundary cases never reached: {missing}")
     cov["exhaustive"] = True
-    cov["samples"] = r["samples"]
+    cov["samples"] = r["samples"] or [{"history": [], "depth": 0}]
     cov["rule"] = (
-        f"breadth-first over all operation histories of length <= {depth} over {len(OPS)} operations {{create(c) x3, "
+        f"breadth-first over all operation histories of length <= {depth} over {len(OPS)} operations: on the first handler {{create(c) x3, "
         "initialize via handle_message (supported / unsupported / absent version) x3 without session id and x9 carrying the id "
         "of session #0 / #1 / a never-issued id, get/update_activity/delete/"
         "ping-with-session-id over every issued id and a never-issued one, cleanup_expired(0 | 10 | default), "
         "list_sessions + mutate the returned dict (add | delete | clear), clear_all_sessions, advance the (fractional) clock "
         "by 0.5 | 9.5 | 3599.5 from a start at x.25}}, "
-        f"at most {MAX_IDS} ids issued per history; every history+op is one fresh execution on the real ProtocolHandler/"
+        "and on a SECOND ProtocolHandler alive next to the first {{create, initialize, delete, clear}} whose store must stay its own "
+        f"(both public views are compared with two independent model maps); at most {MAX_IDS} + {MAX_IDS_B} ids issued per history; "
+        + (f"one more level (length {depth + extra}) extends the histories that never issued an id on the second handler with the "
+           "first handler's operations only; " if extra else "") +
+        "every execution first checks that handlers built after a throw-away handler already holds a session start EMPTY; every history+op is one fresh execution on the real ProtocolHandler/"
         "SessionManager compared step by step with a dict model; state = (ids issued, sorted (issue index, client info, "
         "version, age since creation, idle time)); a state is extended once, by the first history (BFS order) that reaches it; "
         "distinct_nontrivial = distinct canonical states"
     )
     res.assumptions = [
+        "two ProtocolHandler objects built with the same arguments are independent servers: a session created through one is "
+        "not visible through the other, and a new handler's store is empty",
         "canonicalisation: issue index replaces the opaque id and ages replace absolute times - sound if no operation inspects "
         "the id's characters or the absolute clock value (expiry is specified on now - last_activity only)",
         "uuid.uuid4 and the session module's time are the only sources of ids / time (stubbed; the check fails as a harness "
